@@ -3,6 +3,7 @@
 //          N  new_recording     G i q  set_gradient(x[i], q/4)    F  compute_tangent_linear    R  compute_adjoint
 //          C  clear_gradients   I i / D i  independent / dependent    CI / CD  clear_independents / clear_dependents
 //          J  jacobian          P / U  pause_recording / continue_recording    O i  get_gradient(x[i])    K  counts
+//          A  create one more active scalar (adouble(0.0): records an empty statement)    W lhs q idx  append_derivative_dependence on lhs
 // prints one token per observation: values, "E" for an exception, Jacobians as "[a b; c d]".
 #include <adept_arrays.h>
 #include <iostream>
@@ -19,8 +20,9 @@ int main(int argc, char** argv) {
     std::ostringstream os;
     int ng; is >> ng;
     Stack stack;
-    std::vector<adouble> x(ng);
-    for (int i = 0; i < ng; ++i) x[i] = 0.0;
+    std::vector<adouble*> xp;
+    for (int i = 0; i < ng; ++i) { xp.push_back(new adouble); xp[i]->set_value(0.0); }
+#define x(i) (*xp[i])
     stack.new_recording();
     std::vector<int> ind, dep;
     std::string t;
@@ -28,25 +30,27 @@ int main(int argc, char** argv) {
       try {
         if (t == "S") {
           int lhs, k; is >> lhs >> k;
-          if (k == 0) stack.add_derivative_dependence(x[lhs].gradient_index(), x[0].gradient_index(), 0.0);
+          if (k == 0) stack.add_derivative_dependence(x(lhs).gradient_index(), x(0).gradient_index(), 0.0);
           for (int j = 0; j < k; ++j) {
             int q, idx; is >> q >> idx;
-            if (j == 0) stack.add_derivative_dependence(x[lhs].gradient_index(), x[idx].gradient_index(), q / 4.0);
-            else stack.append_derivative_dependence(x[lhs].gradient_index(), x[idx].gradient_index(), q / 4.0);
+            if (j == 0) stack.add_derivative_dependence(x(lhs).gradient_index(), x(idx).gradient_index(), q / 4.0);
+            else stack.append_derivative_dependence(x(lhs).gradient_index(), x(idx).gradient_index(), q / 4.0);
           }
         }
         else if (t == "N") { stack.new_recording(); ind.clear(); dep.clear(); }
-        else if (t == "G") { int i, q; is >> i >> q; x[i].set_gradient(q / 4.0); }
+        else if (t == "G") { int i, q; is >> i >> q; x(i).set_gradient(q / 4.0); }
         else if (t == "F") stack.compute_tangent_linear();
         else if (t == "R") stack.compute_adjoint();
         else if (t == "C") stack.clear_gradients();
-        else if (t == "I") { int i; is >> i; stack.independent(x[i]); ind.push_back(i); }
-        else if (t == "D") { int i; is >> i; stack.dependent(x[i]); dep.push_back(i); }
+        else if (t == "I") { int i; is >> i; stack.independent(x(i)); ind.push_back(i); }
+        else if (t == "D") { int i; is >> i; stack.dependent(x(i)); dep.push_back(i); }
         else if (t == "CI") { stack.clear_independents(); ind.clear(); }
         else if (t == "CD") { stack.clear_dependents(); dep.clear(); }
         else if (t == "P") stack.pause_recording();
         else if (t == "U") stack.continue_recording();
-        else if (t == "O") { int i; is >> i; double g = 0; x[i].get_gradient(g); os << num(g) << " "; }
+        else if (t == "O") { int i; is >> i; double g = 0; x(i).get_gradient(g); os << num(g) << " "; }
+        else if (t == "A") { xp.push_back(new adouble(0.0)); }
+        else if (t == "W") { int lhs, q, idx; is >> lhs >> q >> idx; stack.append_derivative_dependence(x(lhs).gradient_index(), x(idx).gradient_index(), q / 4.0); }
         else if (t == "K") os << "k" << stack.n_statements() - 1 << "/" << stack.n_operations() << " ";
         else if (t == "J") {
           size_t n = ind.size(), m = dep.size();
@@ -56,9 +60,13 @@ int main(int argc, char** argv) {
           for (size_t j = 0; j < n; ++j) { for (size_t d = 0; d < m; ++d) os << num(jac[j * m + d]) << (d + 1 < m ? " " : ""); os << (j + 1 < n ? "; " : ""); }
           os << "] ";
         }
-      } catch (const std::exception& e) { os << "E "; }
+      }
+      catch (const gradients_not_initialized&) { os << "E:n "; } catch (const gradient_out_of_range&) { os << "E:r "; }
+      catch (const wrong_gradient&) { os << "E:w "; } catch (const dependents_or_independents_not_identified&) { os << "E:d "; }
+      catch (const std::exception& e) { os << "E:? "; }
     }
     std::cout << os.str() << "\n";
+    for (size_t i = xp.size(); i > 0; --i) delete xp[i - 1];
   }
   return 0;
 }
